@@ -1,10 +1,292 @@
 /-
   C04 — every HTTP/1.x response is well-formed, correctly delimited and byte-exact.
-  (theorems follow)
+  Property theorems only; helper lemmas live in LtVerif/Proofs/{H1Resp,HttpChunkEnc,NetWrite}.lean.
+
+  Models: Model/H1Resp.lean (http_response_write_prepare, h1_send_headers, encoders, and the
+  RFC 9112 §6.3 reference `rfcFraming` / `rfcBody`), Model/HttpChunkEnc.lean (http_chunk.c),
+  Model/NetWrite.lean (network_write.c over a chunk queue with a write-result schedule).
 -/
-import LtVerif.Model.H1Resp
-import LtVerif.Model.NetWrite
+import LtVerif.Proofs.H1Resp
+import LtVerif.Proofs.NetWrite
 namespace LtVerif.C04
 open LtVerif B
+
+/-! ## framing: the length the response declares is true and its end can be determined -/
+
+/-- **Framing soundness.**  For every response descriptor a well-behaved handler can leave behind
+    (any status >= 200, method, HTTP version, finished or streaming, any header set without a
+    transfer coding of its own, any body and any sequence of streamed pieces), read the final header
+    fields the way RFC 9112 §6.3 tells a client to (`rfcFraming`), and split the bytes that follow
+    the header section accordingly (`rfcBody`), with arbitrary bytes `next` of a following response
+    behind them.  Then:
+    * the framing is never uninterpretable;
+    * if it is "until close", keep-alive is off (the connection is closed after the response) and
+      the body is exactly the intended one;
+    * otherwise the client recovers exactly the intended body and exactly `next` is left over:
+      Content-Length equals the number of body bytes sent, a chunked body is correctly framed and
+      terminated, and the next response starts where the client expects it;
+    * HEAD, 204, 205 and 304 responses put no body bytes on the wire; a 204 has no Content-Length;
+    * the status is the handler's and the response is complete. -/
+theorem c04_framing_sound (d : RespIn) (date next : Bytes) (h : HandlerSane d) :
+    (respond d date).status = d.status ∧ (respond d date).finished = true ∧
+    rfcFraming (decide (d.meth = .head)) (respond d date).status (respond d date).hdrs ≠ .invalid ∧
+    (rfcFraming (decide (d.meth = .head)) (respond d date).status (respond d date).hdrs = .close →
+      (respond d date).keepAlive = false ∧
+      rfcBody .close (respond d date).body = some (intendedBody d, [])) ∧
+    (rfcFraming (decide (d.meth = .head)) (respond d date).status (respond d date).hdrs ≠ .close →
+      rfcBody (rfcFraming (decide (d.meth = .head)) (respond d date).status (respond d date).hdrs)
+        ((respond d date).body ++ next) = some (intendedBody d, next)) ∧
+    ((d.meth = .head ∨ isBodiless d.status = true) → (respond d date).body = []) ∧
+    (d.status = 204 → Hdrs.has (respond d date).hdrs nContentLength = false) := by
+  have := framing_sound_core d date next h
+  unfold FramingGoal at this
+  simp only [] at this
+  obtain ⟨h1, h2, h3, h4, h5, h6, h7⟩ := this
+  refine ⟨h1, h2, h3, ?_, h5, h6, h7⟩
+  intro hc
+  have := h4 hc
+  rw [hc] at this
+  exact this
+
+/-- **No body for HEAD / 204 / 205 / 304 — unconditionally.**  Whatever the handler queued,
+    declared or streams later (no assumption on the descriptor at all), such a response consists of
+    its header section only. -/
+theorem c04_bodiless_no_body (d : RespIn) (date : Bytes)
+    (h : d.meth = .head ∨ isBodiless d.status = true) : (respond d date).body = [] := by
+  have hfin : (writePrepare d).body = [] ∧ (writePrepare d).finished = true := by
+    unfold writePrepare wpHead
+    by_cases hm : d.meth = .head
+    · simp [hm, bodyClear]
+    · simp only [hm, if_false]
+      have hb : isBodiless d.status = true := h.resolve_left hm
+      have hcases : d.status = 204 ∨ d.status = 205 ∨ d.status = 304 := by
+        simp only [isBodiless, Bool.or_eq_true, decide_eq_true_eq] at hb
+        rcases hb with (h1 | h1) | h1
+        · exact Or.inl h1
+        · exact Or.inr (Or.inl h1)
+        · exact Or.inr (Or.inr h1)
+      have hst : (wpStatus d).body = [] ∧ (wpStatus d).finished = true := by
+        rcases hcases with h1 | h1 | h1
+        · rw [wpStatus_2045 d (Or.inl h1)]; exact ⟨rfl, rfl⟩
+        · rw [wpStatus_2045 d (Or.inr h1)]; exact ⟨rfl, rfl⟩
+        · rw [wpStatus_304 d h1]; exact ⟨rfl, rfl⟩
+      unfold wpFraming
+      simp only [hst.2, if_true, hst.1, List.length_nil, gt_iff_lt, Nat.lt_irrefl, if_false]
+      repeat' split
+      all_goals exact ⟨hst.1, hst.2⟩
+  unfold respond
+  simp [hfin.1, hfin.2]
+
+/-- the header section of an interim (1xx) response is everything `send1xx` writes: it ends with
+    the empty line, and there is nothing after it -/
+theorem c04_interim_is_head_only (status : Nat) (hs : List Hdr) (h : HdrsClean hs) :
+    ∃ lines : List Bytes, (∀ l ∈ lines, NoCRLF l) ∧
+      splitOn lf (send1xx status hs) = lines.map (· ++ [cr]) ++ [[cr], []] := by
+  refine ⟨_, ?_, splitOn_renderHead _ ?_⟩
+  · intro l hl
+    rcases List.mem_cons.mp hl with rfl | hl
+    · exact NoCRLF.append ⟨by decide, by decide⟩ (statusText_clean status)
+    · obtain ⟨x, hx, rfl⟩ := List.mem_map.mp hl
+      have hx' := (List.mem_filter.mp hx).1
+      unfold renderField
+      exact ((h x hx').1.append ⟨by decide, by decide⟩).append (h x hx').2
+  · intro l hl
+    rcases List.mem_cons.mp hl with rfl | hl
+    · exact (NoCRLF.append ⟨by decide, by decide⟩ (statusText_clean status)).2
+    · obtain ⟨x, hx, rfl⟩ := List.mem_map.mp hl
+      have hx' := (List.mem_filter.mp hx).1
+      unfold renderField
+      exact (((h x hx').1.append ⟨by decide, by decide⟩).append (h x hx').2).2
+
+/-! ## chunked bodies -/
+
+/-- **Chunked round trip.**  Whatever pieces a handler appends with http_chunk_append_*() (empty
+    pieces included) and closes with http_chunk_close(), the RFC 9112 §7.1 decoder automaton
+    (Model/H1Chunked: any limits-free configuration) ends in its final state having produced
+    exactly the concatenation of the pieces, consumed exactly the encoding (`after` counts the
+    bytes `next` that follow it) and seen no error. -/
+theorem c04_chunked_roundtrip (cfg : CkCfg) (hcfg : cfg.maxSize = 0) (hmf : cfg.maxField ≥ 1026)
+    (pieces : List Bytes) (next : Bytes) (hsz : ∀ p ∈ pieces, chunkSizeOk p.length) :
+    ckFeed cfg {} (chunkStream true pieces true ++ next)
+      = { mode := .done, out := pieces.flatten, ka := true, after := next.length } := by
+  simpa using ckFeed_chunkStream cfg hcfg hmf next pieces [] hsz
+
+/-- the same including the first chunk that http_response_write_prepare() wraps around what was
+    already queued when it switched the response to chunked (its size line has leading zeros) -/
+theorem c04_chunked_roundtrip_with_first (queued : Bytes) (pieces : List Bytes) (next : Bytes)
+    (hq : chunkSizeOk queued.length) (hsz : ∀ p ∈ pieces, chunkSizeOk p.length) :
+    rfcBody .chunked (chunkFirst queued ++ chunkStream true pieces true ++ next)
+      = some (queued ++ pieces.flatten, next) :=
+  rfcBody_chunked queued pieces next hq hsz
+
+/-- every chunk-size line the encoder writes is accepted by the decoder with exactly that size -/
+theorem c04_chunk_size_line_exact (n : Nat) (h : chunkSizeOk n) :
+    ckParseLine (chunkLenLine n) = .ok n ∧ ckParseLine (hexBytesLc n ++ [cr, lf]) = .ok n :=
+  ⟨(goodLine_chunkLenLine n h).parse, (goodLine_hexBytes n h).parse⟩
+
+/-- a body that is not chunked is passed through untouched -/
+theorem c04_unchunked_is_identity (pieces : List Bytes) :
+    chunkStream false pieces true = pieces.flatten :=
+  chunkStream_plain pieces
+
+/-! ## partial writes -/
+
+/-- **chunkqueue_mark_written() is exact**: after `n` bytes are reported written, the queue stands
+    for exactly the old byte string minus its first `n` bytes (any chunk layout, any `n`). -/
+theorem c04_mark_written_exact (q : Cq) (n : Nat) (h : CqWF q) :
+    cqFlat (markWritten q n) = (cqFlat q).drop n ∧ CqWF (markWritten q n) :=
+  ⟨markWritten_flat q n h, markWritten_WF q n h⟩
+
+/-- **One call of the network backend** (writev or sendfile flavour, any `max_bytes`, any state of
+    the queue, any schedule of write/writev/sendfile results: full, short, 0, EAGAIN, EINTR,
+    EPIPE, ECONNRESET, EINVAL with the sendfile fallback, EIO): the bytes accepted by the socket so
+    far followed by the bytes still queued never change; `bytes_out` counts exactly the accepted
+    bytes; accepted bytes are only ever appended. -/
+theorem c04_network_write_exact (b : Backend) (st : NwSt) (maxBytes : Nat) (h : CqWF st.q) :
+    (networkWrite b st maxBytes).2.acc ++ cqFlat (networkWrite b st maxBytes).2.q = st.acc ++ cqFlat st.q ∧
+    (networkWrite b st maxBytes).2.out + st.acc.length = st.out + (networkWrite b st maxBytes).2.acc.length ∧
+    (∃ t, (networkWrite b st maxBytes).2.acc = st.acc ++ t) ∧
+    CqWF (networkWrite b st maxBytes).2.q := by
+  have := networkWrite_inv b st maxBytes h
+  exact ⟨this.bytes, this.out, this.ext, this.wf⟩
+
+/-- **Partial writes are exact over the whole life of a response.**  Start with a message queued in
+    any layout of memory and file chunks and call the backend again and again (as
+    connection_handle_write() does on every writable event), under EVERY schedule of write results.
+    At every point the bytes the socket has accepted are a prefix of the queued message, what is
+    still queued is exactly the rest, `bytes_out` is the prefix length, and once the queue is empty
+    the socket has received exactly the message: nothing lost, duplicated or reordered. -/
+theorem c04_partial_write_exact (b : Backend) (maxBytes : Nat) (q : Cq) (sched : List WrRes) (h : CqWF q) :
+    let r := (drive b maxBytes { q := q, sched := sched }).2.2
+    r.acc ++ cqFlat r.q = cqFlat q ∧ r.out = r.acc.length ∧
+    (r.q = [] → r.acc = cqFlat q) := by
+  have inv := driveGo_inv b maxBytes (sched.length + q.length + 2) 0 0 { q := q, sched := sched } h
+  have hb := inv.bytes
+  have ho := inv.out
+  simp only [List.nil_append, List.length_nil, Nat.add_zero, Nat.zero_add] at hb ho
+  refine ⟨hb, ho, ?_⟩
+  intro he
+  have : (drive b maxBytes { q := q, sched := sched }).2.2.q = [] := he
+  unfold drive at this
+  simp only [] at this
+  rw [this] at hb
+  simpa [cqFlat] using hb
+
+/-! ## no CR / LF from request-derived data -/
+
+/-- **The URL encoders cannot emit CR, LF, NUL or even a space.**  For every byte string,
+    buffer_append_string_encoded() with ENCODING_REL_URI / ENCODING_REL_URI_PART (tables extracted
+    from buffer.c on every run) yields printable non-space ASCII only. -/
+theorem c04_no_crlf_injection (enc : Nat) (henc : enc < 2) (s : Bytes) :
+    ∀ x ∈ encodeStr enc s, 0x21 ≤ x ∧ x ≤ 0x7e ∧ x ≠ cr ∧ x ≠ lf ∧ x ≠ 0 := by
+  intro x hx
+  unfold encodeStr at hx
+  obtain ⟨b, _, hxb⟩ := List.mem_flatMap.mp hx
+  have := encodeByte_rel_printable enc henc b x hxb
+  refine ⟨this.1, this.2, ?_, ?_, ?_⟩
+  · intro e; subst e; exact absurd this.1 (by decide)
+  · intro e; subst e; exact absurd this.1 (by decide)
+  · intro e; subst e; exact absurd this.1 (by decide)
+
+/-- the HTML / XML encoders let no control character through either -/
+theorem c04_entity_encoding_no_ctl (enc : Nat) (henc : enc < 4) (s : Bytes) :
+    ∀ x ∈ encodeStr enc s, 0x20 ≤ x ∧ x ≠ 0x7f := by
+  intro x hx
+  unfold encodeStr at hx
+  obtain ⟨b, _, hxb⟩ := List.mem_flatMap.mp hx
+  exact encodeByte_no_ctl enc henc b x hxb
+
+/-- **Directory redirect.**  The Location value of http_response_redirect_to_directory() carries
+    no CR, LF or NUL for ANY request path (raw, decoded, with or without control bytes), provided
+    the authority and the query string have none (they are checked by the request parser: C01/C02). -/
+theorem c04_redirect_location_clean (pfx path query : Bytes)
+    (hp : ∀ x ∈ pfx, x ≠ cr ∧ x ≠ lf ∧ x ≠ 0) (hq : ∀ x ∈ query, x ≠ cr ∧ x ≠ lf ∧ x ≠ 0) :
+    ∀ x ∈ redirectLocation pfx path query, x ≠ cr ∧ x ≠ lf ∧ x ≠ 0 := by
+  intro x hx
+  unfold redirectLocation at hx
+  rcases List.mem_append.mp hx with h1 | h1
+  · rcases List.mem_append.mp h1 with h2 | h2
+    · rcases List.mem_append.mp h2 with h3 | h3
+      · exact hp x h3
+      · exact (c04_no_crlf_injection 0 (by decide) path x h3).2.2
+    · simp at h2; subst h2; decide
+  · split at h1
+    · simp at h1
+    · rcases List.mem_cons.mp h1 with rfl | h2
+      · decide
+      · exact hq x h2
+
+/-- **Decoded paths.**  buffer_urldecode_path() never produces a control character: a request
+    target without raw control bytes decodes to a path without any (%0d, %0a, %00 … become '_'). -/
+theorem c04_decoded_path_no_ctl (s : Bytes) (h : ∀ b ∈ s, 32 ≤ b ∧ b ≠ 127) :
+    ∀ b ∈ urldecodePath s, 32 ≤ b ∧ b ≠ 127 :=
+  urldecodePath_printable s h
+
+/-- **The header section is exactly its lines.**  If no field the handler set contains CR or LF
+    (for request-derived values that is what the three theorems above give), then for every
+    descriptor the serialised header section splits at LF into exactly: the status line, one line
+    per visible field, Date, Server — each ending in CR and containing no other CR or LF — then
+    the empty line, then nothing.  No extra header line and no second response can appear. -/
+theorem c04_header_section_exact (d : RespIn) (date : Bytes) (hc : HdrsClean d.hdrs) (hd : NoCRLF date)
+    (ht : ∀ t, d.serverTag = some t → NoCRLF t) :
+    (∀ l ∈ headLines d.ver11 (respond d date).status (respond d date).hdrs date d.serverTag, NoCRLF l) ∧
+    splitOn lf (respond d date).head
+      = (headLines d.ver11 (respond d date).status (respond d date).hdrs date d.serverTag).map (· ++ [cr])
+        ++ [[cr], []] := by
+  have hclean := headLines_clean d.ver11 (respond d date).status (respond d date).hdrs date d.serverTag
+    (respond_hdrs_clean d date hc) hd ht
+  refine ⟨hclean, ?_⟩
+  have : (respond d date).head
+      = renderHead (headLines d.ver11 (respond d date).status (respond d date).hdrs date d.serverTag) := rfl
+  rw [this]
+  exact splitOn_renderHead _ (fun l hl => (hclean l hl).2)
+
+/-! ## non-vacuity: concrete instances -/
+
+/-- a static-file style response: finished, handler-declared Content-Length -/
+def exStatic : RespIn :=
+  { status := 200, hdrs := [⟨ofString "Content-Length", ofString "5"⟩], queued := ofString "hello" }
+
+/-- a streamed HTTP/1.1 response: nothing declared, two pieces -/
+def exStream : RespIn :=
+  { status := 200, finished := false, queued := ofString "he", pieces := [ofString "llo", [], ofString "!"] }
+
+example : HandlerSane exStatic :=
+  ⟨by decide, by decide, by decide, by decide,
+   by intro _ _ v hv _; simp [exStatic, Hdrs.get, Hdrs.sameName, eqIcase] at hv; subst hv; decide,
+   rfl, ⟨by unfold chunkSizeOk; decide, by intro p hp; simp [exStatic] at hp⟩⟩
+
+example : HandlerSane exStream :=
+  ⟨by decide, by decide, by decide, by decide,
+   by intro _ _ v hv; simp [exStream, Hdrs.get] at hv,
+   rfl, ⟨by unfold chunkSizeOk; decide,
+         by intro p hp; simp [exStream] at hp; rcases hp with rfl | rfl | rfl <;> (unfold chunkSizeOk; decide)⟩⟩
+
+example : rfcFraming false 200 (respond exStatic []).hdrs = .length 5 := by decide
+example : rfcFraming false 200 (respond exStream []).hdrs = .chunked := by decide
+example : (respond exStream []).body = ofString "02\r\nhe\r\n3\r\nllo\r\n1\r\n!\r\n0\r\n\r\n" := by decide
+example : rfcFraming false 200 (respond { exStream with ver11 := false } []).hdrs = .close ∧
+    (respond { exStream with ver11 := false } []).keepAlive = false := by decide
+example : (respond { exStatic with meth := .head } []).body = [] := by decide
+example : chunkStream true [ofString "abc", [], ofString "0123456789abcdef0"] true
+    = ofString "3\r\nabc\r\n11\r\n0123456789abcdef0\r\n0\r\n\r\n" := by decide
+example : chunkSizeOk 1048577 := by unfold chunkSizeOk; decide
+
+/-- a queue of a memory chunk, a partly sent file chunk and another memory chunk -/
+def exQ : Cq := [.mem (ofString "HTTP/1.1 200 OK\r\n\r\n") 0, .file (ofString "0123456789") 2 9, .mem (ofString "tail") 1]
+
+example : CqWF exQ := by
+  intro c hc
+  simp [exQ] at hc
+  rcases hc with rfl | rfl | rfl <;> simp [Chunk.WF, ofString]
+example : (drive .sendfile 262144 { q := exQ, sched := [.ok 5, .eagain, .ok 100, .eintr, .ok 3, .einval, .ok 2, .ok 100, .ok 100] }).2.2.acc
+    = ofString "HTTP/1.1 200 OK\r\n\r\n2345678ail" := by decide
+example : encodeStr 0 (ofString "/a b\r\nSet-Cookie: x") = ofString "/a%20b%0D%0ASet-Cookie%3A%20x" := by decide
+example : urldecodePath (ofString "/a%0d%0aX:%20y") = ofString "/a__X: y" := by decide
+example : HdrsClean exStatic.hdrs := by
+  intro h hh
+  simp [exStatic] at hh
+  subst hh
+  exact ⟨⟨by decide, by decide⟩, ⟨by decide, by decide⟩⟩
 
 end LtVerif.C04
